@@ -96,12 +96,8 @@ func (e *Engine) strLit(s string) string {
 
 func (e *Engine) typeID(t types.Type) int {
 	k := types.TypeString(t, nil)
-	switch k {
-	case "byte":
-		k = "uint8"
-	case "rune":
-		k = "int32"
-	}
+	k = byteRe.ReplaceAllString(k, "uint8")
+	k = runeRe.ReplaceAllString(k, "int32")
 	if id, ok := e.typeIDs[k]; ok {
 		return id
 	}
